@@ -45,10 +45,11 @@ const (
 	pcRawKey
 	pcConst
 	pcRandom
+	pcUnderBase
 )
 
 func (c pathClass) String() string {
-	return [...]string{"OTHER", "BASE", "STAGINGDIR", "STAGING", "DEST", "DESTDIR", "RAWKEY", "CONST", "RANDOM"}[c]
+	return [...]string{"OTHER", "BASE", "STAGINGDIR", "STAGING", "DEST", "DESTDIR", "RAWKEY", "CONST", "RANDOM", "UNDERBASE"}[c]
 }
 
 type fsFacts struct {
@@ -315,6 +316,20 @@ func (f *fsFacts) classify1(v ssa.Value) pathClass {
 			if len(elems) == 3 && f.classify(elems[0]) == pcBase && f.isStagingConst(elems[1]) && f.classify(elems[2]) == pcRandom {
 				return pcStaging
 			}
+			// under the base path and free of key material (not a recognised staging name, which C18 insists on)
+			if len(elems) >= 2 && f.classify(elems[0]) == pcBase {
+				keyFree := true
+				for _, e := range elems[1:] {
+					for w := range core.BackSlice(e, core.SliceOpts{ThroughCalls: true, Stores: true}) {
+						if prm, ok := w.(*ssa.Parameter); ok && isString(prm.Type()) && f.classify(prm) == pcRawKey {
+							keyFree = false
+						}
+					}
+				}
+				if keyFree {
+					return pcUnderBase
+				}
+			}
 			return pcOther
 		}
 	}
@@ -478,13 +493,72 @@ func runC17(c *core.Ctx) {
 			n[oc.name]++
 			ck := fmt.Sprintf("%s#os.%s-arg%d[%s]", core.FuncKey(oc.fn), oc.name, i, cls)
 			switch cls {
-			case pcBase, pcStagingDir, pcStaging, pcDest, pcDestDir:
+			case pcBase, pcStagingDir, pcStaging, pcDest, pcDestDir, pcUnderBase:
 				c.OK(ck, p.Pos(oc.ci.Pos()), "path provenance: "+cls.String())
 			default:
 				c.Fail(ck, p.Pos(oc.ci.Pos()), "a filesystem call receives a path whose provenance is "+cls.String()+": not derived from the base path through the escaping and sharding functions or the staging directory")
 			}
 		}
 	}
+	c.Rule("C17.wholekey", "no function of the storage packages truncates a key: a string key parameter is never copied into a fixed-size array nor sliced with a constant upper bound on its way to the value that names the block (distinct keys must stay distinct)", 3)
+	for _, fn := range p.ModFns {
+		pk := core.FuncPkg(fn)
+		if pk == nil || len(fn.Blocks) == 0 || fn.Synthetic != "" {
+			continue
+		}
+		rel := core.RelPkg(pk.Path())
+		if !strings.HasPrefix(rel, "storage") || rel == "storage/tests" || rel == "storage/benchmarks" {
+			continue
+		}
+		var keys []*ssa.Parameter
+		for _, prm := range fn.Params {
+			if isString(prm.Type()) {
+				keys = append(keys, prm)
+			}
+		}
+		if len(keys) == 0 {
+			continue
+		}
+		bad := ""
+		var badPos token.Pos
+		fromKey := func(v ssa.Value) bool {
+			for w := range core.BackSlice(v, core.SliceOpts{Stores: true}) {
+				for _, k := range keys {
+					if w == ssa.Value(k) {
+						return true
+					}
+				}
+			}
+			return false
+		}
+		core.Instrs(fn, func(in ssa.Instruction) {
+			switch x := in.(type) {
+			case *ssa.Slice:
+				if x.High != nil && core.ConstVal(x.High) != nil && fromKey(x.X) {
+					bad, badPos = "the key is sliced with a constant upper bound", x.Pos()
+				}
+			case ssa.CallInstruction:
+				if b, ok := x.Common().Value.(*ssa.Builtin); ok && b.Name() == "copy" && fromKey(x.Common().Args[1]) {
+					// destination rooted at a fixed-size array
+					d := x.Common().Args[0]
+					for w := range core.BackSlice(d, core.SliceOpts{}) {
+						if al, ok := w.(*ssa.Alloc); ok {
+							if _, isArr := al.Type().(*types.Pointer).Elem().Underlying().(*types.Array); isArr {
+								bad, badPos = "the key is copied into a fixed-size array", x.Pos()
+							}
+						}
+					}
+				}
+			}
+		})
+		c.Check(bad == "", core.FuncKey(fn)+"#whole-key", p.Pos(func() token.Pos {
+			if badPos.IsValid() {
+				return badPos
+			}
+			return fn.Pos()
+		}()), "key used whole", bad+": keys longer than the bound alias one another")
+	}
+
 	// the escaping function field is only written by Init-like configuration and is never nil-unsafe: every call of escapingFunc is reached with a field set in Init
 	c.Rule("C17.noretain", "memstore.Store and cidlink.Memory never place a caller-provided slice into their bag (the stored value derives from a fresh make/buffer of the store's own), and Get returns a fresh copy, not the stored slice", 3)
 	for _, spec := range []struct{ rel, typ string }{{"storage/memstore", "Store"}, {"linking/cid", "Memory"}} {
